@@ -139,7 +139,13 @@ Prods(sym, rich) ==
     [] sym = "Arg" ->
          {<<>>, <<NT("Value")>>, <<NT("Value")>>} \cup
          {<<T(n), w, D("=", "ASSIGN"), w, NT("Value")>> : n \in Names} \cup
-         {<<T(n), w, D("=", "ASSIGN")>> : n \in Names}
+         {<<T(n), w, D("=", "ASSIGN")>> : n \in Names} \cup
+         \* argument names built from macro elements: a call without parentheses, a reference, a prefix before either
+         (IF rich THEN {<<T("%" \o m), D("=", "ASSIGN"), NT("Value")>> : m \in MNames} \cup
+                       {<<T("pre"), T("%" \o m), D("=", "ASSIGN"), w, NT("Value")>> : m \in MNames} \cup
+                       {<<T("%" \o m), T(" "), D("=", "ASSIGN"), NT("Value")>> : m \in MNames} \cup
+                       {<<T("&mv"), D("=", "ASSIGN"), NT("Value")>>, <<T("a&mv.b"), w, D("=", "ASSIGN"), NT("Value")>>}
+          ELSE {})
     [] sym = "Value" ->
          {<<NT("ValueHead"), NT("ValueRest")>>}
     [] sym = "ValueHead" ->
